@@ -163,7 +163,7 @@ PROPS["C12"] = dict(
                               "goroutine switches at blocking points and goroutine exit (preemption bound 0 quick / 1 thorough)"],
     outside=["more than three API calls per run", "context expiry racing with a still running callback (expiry is modelled at quiescence only)", "sessions with a real backend"],
     runs=[
-        dict(dir="threshold", files=["thr_c12.go.txt"], entry="verifH_C12_sign", args=_THR_CONC + ["-preempt", "0"], count=["assert:C12-", "panic:", "deadlock:"], expect_covers=["end"],
+        dict(dir="threshold", files=["thr_c12.go.txt"], entry="verifH_C12_sign", args=_THR_CONC + ["-preempt", "0"], count=["assert:C12-", "assert:C01-", "panic:", "deadlock:"], expect_covers=["end"],
              shards=8, shard_depth=4, bounds={"calls": "Sign, then Sign on the same topic", "outcome of the first": "8 symbolic outcomes (ok; either barrier fails; share data unusable; signer fails; either barrier or the signing protocol never completes until the context ends)", "schedules": "all choices of the next goroutine at blocking points"}),
         dict(dir="threshold", files=["thr_c12.go.txt"], entry="verifH_C12_keygen", args=_THR_CONC + ["-preempt", "0", "-det"], count=["assert:C12-", "assert:C11-", "panic:", "deadlock:"],
              expect_covers=["end"], bounds={"calls": "KeyGen, then KeyGen", "outcome of the first": "ok / first barrier fails / second barrier fails / backend fails / duplicate party / either barrier or the backend protocol never completes until the context ends", "schedule": "canonical"}),
@@ -782,3 +782,6 @@ PROPS["C17"]["runs"].append(
 PROPS["C10"]["runs"].append(
     _ps("verifH_C10_ps_verify_resized", ["ps_c10b.go.txt", "ps_c10.go.txt"], name="ps.Verifier.Verify: a genuine proof re-encoded with a vector of the wrong length (natively replayable twin of the havoc run)", count=["panic:", "deadlock:", "assert:C10-"], covers=["rejected", "returned"],
         bounds={"vector": "the outer data vector (0, 4, 6 elements) or the inner response vector (0, n-1, n+1) (symbolic)", "rest": "as the prover made it"}))
+
+# C01 "where signing itself is orchestrated": the orchestrated signing session (real Scheme.Sign with scripted collaborators): size of the gathered set, result passed through
+PROPS["C01"]["runs"] += [dict(r, name="orchestrated signing session: " + r.get("name", r["entry"]), count=["assert:C01-", "panic:", "deadlock:"]) for r in PROPS["C12"]["runs"] if r["entry"] == "verifH_C12_sign"][:1]
